@@ -44,6 +44,12 @@ def gen_contract_asm(rng, nblocks_init=2, nblocks_run=4, block_kw=None, blocks=N
         asm[".data"]["0"][".data"] = {"A1B2": "deadbeef%02x" % rng.getrandbits(8)}
     if rng.random() < 0.3:
         asm[".data"]["ACAF3289D7B601CBD114FB36C4D29C85BBFD5E133F14CB355C3FD8D99367964F"] = "4e487b71"
+    if rng.random() < 0.3 and not blocks:
+        # a factory: a second code sub-assembly next to the runtime code (what `new Child()` produces)
+        extra = [B.gen_block(rng, ending=True, **kw) for _ in range(rng.choice([1, 2]))]
+        asm[".data"]["1"] = {".auxdata": "a264%04x" % rng.getrandbits(16), ".code": code_of(extra, rng, first_tag=20)}
+        if rng.random() < 0.5:
+            asm[".data"]["1"][".data"] = {"0": {".auxdata": "a2", ".code": [entry(("STOP", None))]}}
     return asm
 
 
